@@ -10,6 +10,7 @@ import Morlock.Driver.Flt
 import Morlock.Driver.Bernstein
 import Morlock.Driver.Book
 import Morlock.Driver.Sargon
+import Morlock.Driver.Turochamp
 open Morlock.Driver in
 def dispatchPure (toks : List String) : String :=
   match toks with
@@ -42,6 +43,7 @@ def dispatch (st : DriverState) (line : String) : DriverState × String :=
   | "iter" :: args => (st, iterOp st args)
   | "bernstein" :: args => (st, bernsteinOp st args)
   | "sargon" :: args => (st, sargonOp st args)
+  | "turochamp" :: args => (st, turochampOp st args)
   | "bookm" :: _ | "bookfind" :: _ | "booknew" :: _ | "bookstrip" :: _ => (st, bookOp st (splitSp line))
   | "iterhalt" :: _ => (st, "halt-complete=true ## halt-complete=true")
   | other => (st, dispatchPure other)
